@@ -1,7 +1,7 @@
 (* TowerReorg.v — C04: the responder follows the active chain through reorgs.
    Functional specifications of check_conf_loop / reorged_loop / stale_loop / the two listeners,
    the refund accounting of a block, and the height invariant along runs. *)
-From TeosModel Require Import Base ListAux TxIndex TxIndexProofs Tower TowerStable TowerInv.
+From TeosModel Require Import Base ListAux TxIndex TxIndexProofs Tower TowerStable TowerInv TowerProofs.
 From TeosModel.Gen Require Consts.
 From Coq Require Import Lia.
 Local Open Scope N_scope.
@@ -1689,4 +1689,158 @@ Proof.
     destruct (memN u out); reflexivity.
   - intros u. rewrite Hd, Hwd, Hdu. change (db_users (set_rpc_log t [])) with (db_users t).
     destruct (memN u out); reflexivity.
+Qed.
+
+(* ------------------------------------------------------------------------------------------ *)
+(* no other path gives slots back *)
+
+Lemma handle_breach_users sc t uuid d p s t' :
+  r_handle_breach sc t uuid d p = Ok s t' -> gk_users t' = gk_users t /\ db_users t' = db_users t.
+Proof.
+  intros E. pose proof (handle_breach_presW _ (users_stableW (gk_users t) (db_users t)) sc t uuid d p (conj eq_refl eq_refl)) as H.
+  rewrite E in H. exact H.
+Qed.
+
+Lemma store_appointment_users t a t' :
+  w_store_appointment t a = Ok tt t' -> gk_users t' = gk_users t /\ db_users t' = db_users t.
+Proof.
+  unfold w_store_appointment. destruct (find_app (db_apps t) (app_uuid a)).
+  - intros E. inversion E. split; reflexivity.
+  - destruct (amem (db_users t) (a_user a)); [|discriminate]. intros E. inversion E. split; reflexivity.
+Qed.
+
+Lemma delete_false_users t us t' :
+  gk_delete_appointments t us false = Ok tt t' -> gk_users t' = gk_users t /\ db_users t' = db_users t.
+Proof. unfold gk_delete_appointments. intros E. inversion E. split; reflexivity. Qed.
+
+Lemma store_triggered_users sc t a d t' :
+  w_store_triggered sc t a d = Ok tt t' -> gk_users t' = gk_users t /\ db_users t' = db_users t.
+Proof.
+  unfold w_store_triggered. destruct (decrypt (a_blob a) d) as [p|].
+  - destruct (w_store_appointment t a) as [[] t1|] eqn:E1; [|discriminate]. cbn [bind].
+    destruct (r_handle_breach sc t1 (app_uuid a) d p) as [s t2|] eqn:E2; [|discriminate]. cbn [bind].
+    destruct (store_appointment_users _ _ _ E1) as [A1 A2]. destruct (handle_breach_users _ _ _ _ _ _ _ E2) as [B1 B2].
+    destruct (status_rejected s).
+    + intros E. destruct (delete_false_users _ _ _ E) as [C1 C2]. split; congruence.
+    + intros E. inversion E. subst. split; congruence.
+  - destruct (find_app (db_apps t) (app_uuid a)).
+    + apply delete_false_users.
+    + intros E. inversion E. split; reflexivity.
+Qed.
+
+Lemma aget_gk_put t u ui v : aget (gk_users (gk_put t u ui)) v = if N.eqb v u then Some ui else aget (gk_users t) v.
+Proof.
+  unfold gk_put. cbn [gk_users set_gk_users aget]. rewrite aget_remove. destruct (N.eqb v u); reflexivity.
+Qed.
+
+Lemma add_update_user_others t u r t' v :
+  gk_add_update_user t u = Ok r t' -> v <> u -> aget (gk_users t') v = aget (gk_users t) v.
+Proof.
+  unfold gk_add_update_user. intros E Hn. apply N.eqb_neq in Hn.
+  destruct (gk_get t u) as [ui|].
+  - destruct (u32_add (u_slots ui) (c_slots (cfg t))); inversion E; [|reflexivity].
+    unfold p_set_user, db_update_user. cbn [gk_users set_db_users]. rewrite aget_gk_put, Hn. reflexivity.
+  - destruct (u32_add (gk_height t) (c_duration (cfg t))); [|discriminate].
+    destruct (amem (db_users t) u); [discriminate|]. inversion E.
+    unfold p_new_user. rewrite aget_gk_put, Hn. reflexivity.
+Qed.
+
+Lemma add_appointment_slots sc t signer loc b delay sig r t' v ui ui' :
+  w_add_appointment sc t signer loc b delay sig = Ok r t' ->
+  aget (gk_users t) v = Some ui -> aget (gk_users t') v = Some ui' -> u_slots ui < u_slots ui' ->
+  signer = Some v /\ exists a, find_app (db_apps t) (loc, v) = Some a /\ slots_of (b_len b) < slots_of (b_len (a_blob a)).
+Proof.
+  unfold w_add_appointment. intros E Hv Hv' Hlt.
+  assert (Hsame : gk_users t' = gk_users t -> False) by (intros Hs; rewrite Hs in Hv'; assert (ui = ui') by congruence; subst; lia).
+  destruct (authenticate t signer) as [u|] eqn:Ea; [|inversion E; subst; exfalso; auto].
+  apply authenticate_Some in Ea. destruct Ea as [Hs _].
+  destruct (gk_get t u) as [ui0|] eqn:Eg; [|discriminate].
+  destruct (N.leb (u_expiry ui0) (gk_height t)); [inversion E; subst; exfalso; auto|].
+  destruct (find_trk (db_trks t) (loc, u)); [inversion E; subst; exfalso; auto|].
+  unfold gk_add_update_appointment in E. rewrite Eg in E.
+  set (used := match find_app (db_apps t) (loc, u) with Some a => slots_of (b_len (a_blob a)) | None => 0 end) in *.
+  destruct (N.leb (slots_of (b_len b)) (u_slots ui0 + used)) eqn:Ele; cbn [bind] in E; [|inversion E; subst; exfalso; auto].
+  set (s := (u_slots ui0 + used - slots_of (b_len b)) mod U32MOD) in *.
+  set (t1 := p_set_user t u (mk_uinfo s (u_start ui0) (u_expiry ui0))) in *.
+  assert (Hg : gk_users t' = gk_users t1).
+  { destruct (ti_get (w_cache t1) loc) as [dispute|].
+    - destruct (w_store_triggered sc t1 _ dispute) as [[] t2|] eqn:E2; [|discriminate]. cbn [bind] in E.
+      inversion E. subst. apply (store_triggered_users _ _ _ _ _ E2).
+    - destruct (w_store_appointment t1 _) as [[] t2|] eqn:E2; [|discriminate]. cbn [bind] in E.
+      inversion E. subst. apply (store_appointment_users _ _ _ E2). }
+  rewrite Hg in Hv'. unfold t1, p_set_user, db_update_user in Hv'. cbn [gk_users set_db_users] in Hv'.
+  rewrite aget_gk_put in Hv'. destruct (N.eqb v u) eqn:Evu.
+  2:{ assert (ui = ui') by congruence. subst. lia. }
+  apply N.eqb_eq in Evu. subst v. inversion Hv'. subst ui'. cbn [u_slots] in Hlt.
+  unfold gk_get in Eg. assert (ui0 = ui) by congruence. subst ui0.
+  split; [exact Hs|]. apply N.leb_le in Ele.
+  assert (Hs_le : s <= u_slots ui + used - slots_of (b_len b)) by (apply N.mod_le; discriminate).
+  unfold used in *. destruct (find_app (db_apps t) (loc, u)) as [a|]; [|lia].
+  exists a. split; [reflexivity|lia].
+Qed.
+
+Lemma disconnect_users t hash h w t' :
+  listener_disconnected hash h w t = Ok tt t' -> gk_users t' = gk_users t.
+Proof.
+  unfold listener_disconnected. destruct (Z.eqb w 0).
+  - unfold gk_block_disconnected. destruct (u32_sub h 1); [|discriminate]. intros E. inversion E. reflexivity.
+  - destruct (Z.eqb w 1).
+    + unfold w_block_disconnected. destruct (u32_sub h 1); [|discriminate]. intros E. inversion E. reflexivity.
+    + unfold r_block_disconnected. intros E. inversion E. reflexivity.
+Qed.
+
+Lemma run_listeners_users (f : Z -> tower -> res unit) order :
+  (forall w t t', f w t = Ok tt t' -> gk_users t' = gk_users t) ->
+  forall t t', run_listeners f order t = Ok tt t' -> gk_users t' = gk_users t.
+Proof.
+  intros Hf. induction order as [|w order IH]; intros t t' E; cbn [run_listeners] in E; [inversion E; reflexivity|].
+  destruct (f w t) as [[] t1|] eqn:E1; [|discriminate]. cbn [bind] in E.
+  rewrite (IH _ _ E). apply (Hf _ _ _ E1).
+Qed.
+
+(* A user's balance grows in a step only by registering, by replacing one of its own appointments
+   with a smaller blob, or because one of its trackers completed in the block being connected. *)
+Theorem refund_only_on_completion le t o sc t' x u ui ui' :
+  Inv t -> step le t o sc = (t', x) -> not_abort x ->
+  aget (gk_users t) u = Some ui -> aget (gk_users t') u = Some ui' -> u_slots ui < u_slots ui' ->
+  match o with
+  | ORegister u' => u' = u
+  | OAdd signer loc b _ _ =>
+      signer = Some u /\ exists a, find_app (db_apps t) (loc, u) = Some a /\ slots_of (b_len b) < slots_of (b_len (a_blob a))
+  | OConnect hash txs =>
+      exists tw uuid, Inv tw /\ r_block_connected le sc tw (index_block hash txs) (gk_height t + 1) = Ok tt t' /\
+                      In uuid (completed_list txs (gk_height t + 1) tw) /\ snd uuid = u
+  | _ => False
+  end.
+Proof.
+  intros HI E Hna Hu Hu' Hlt.
+  assert (Hsame : gk_users t' = gk_users t -> False)
+    by (intros Hs; rewrite Hs in Hu'; assert (ui = ui') by congruence; subst; lia).
+  destruct o as [u0|signer loc b delay sig|signer loc|signer|hash txs|].
+  - cbn [step] in E. destruct (gk_add_update_user (set_rpc_log t []) u0) as [r t1|s t1] eqn:E1; cbn [wrap] in E;
+      inversion E; subst; [|contradiction].
+    destruct (N.eq_dec u u0) as [->|Hn]; [reflexivity|]. exfalso.
+    pose proof (add_update_user_others _ _ _ _ u E1 Hn) as Hs. change (gk_users (set_rpc_log t [])) with (gk_users t) in Hs.
+    assert (ui = ui') by congruence. subst. lia.
+  - cbn [step] in E. destruct (w_add_appointment sc (set_rpc_log t []) signer loc b delay sig) as [r t1|s t1] eqn:E1;
+      cbn [wrap] in E; inversion E; subst; [|contradiction].
+    exact (add_appointment_slots sc (set_rpc_log t []) signer loc b delay sig r t' u ui ui' E1 Hu Hu' Hlt).
+  - destruct (get_unchanged le t sc signer loc) as [r Er]. rewrite Er in E. inversion E. subst. apply Hsame. reflexivity.
+  - destruct (getsub_unchanged le t sc signer) as [r Er]. rewrite Er in E. inversion E. subst. apply Hsame. reflexivity.
+  - assert (x = OBlockRes).
+    { cbn [step] in E. destruct (run_listeners _ _ _) as [[] t1|s t1]; cbn [wrap] in E; inversion E; subst; [reflexivity|contradiction]. }
+    subst x. destruct (step_connect_refunds le t hash txs sc t' HI E) as [out [tw [Eo [HIw [Hh [Er [Hg Hd]]]]]]].
+    exists tw. specialize (Hg u). rewrite Hu, Hu' in Hg. destruct (memN u out); [discriminate|]. cbn [option_map] in Hg.
+    inversion Hg. subst ui'. cbn [u_slots credit] in Hlt.
+    set (completed := completed_list txs (gk_height t + 1) tw) in *.
+    assert (Hex : exists uuid, In uuid completed /\ snd uuid = u).
+    { destruct (existsb (fun uuid => N.eqb (snd uuid) u) completed) eqn:Ex.
+      - apply existsb_exists in Ex. destruct Ex as [uuid [Hi He]]. apply N.eqb_eq in He. eauto.
+      - exfalso. rewrite refund_total_not_owner in Hlt; [lia|].
+        intros uuid Hi He. assert (existsb (fun uuid => N.eqb (snd uuid) u) completed = true); [|congruence].
+        apply existsb_exists. exists uuid. split; [exact Hi|]. apply N.eqb_eq. exact He. }
+    destruct Hex as [uuid [Hi He]]. exists uuid. auto.
+  - cbn [step] in E. destruct (last_hash (set_rpc_log t [])) as [hash|]; [|inversion E; subst; apply Hsame; reflexivity].
+    destruct (run_listeners _ _ _) as [[] t1|s t1] eqn:E1; cbn [wrap] in E; inversion E; subst; [|contradiction].
+    apply Hsame. apply (run_listeners_users _ _ (fun w a b => disconnect_users a hash _ w b) _ _ E1).
 Qed.
